@@ -17,7 +17,7 @@ Python here only renders, runs and compares projections; every expected value co
 import glob, json, os, re, subprocess, sys
 import vlib, ilparse
 
-DEVIATIONS = ["AnonNoMem", "EmptyBraceNoFocus", "BraceNoReset", "UnionCover", "StrPatchOOB", "AutoBackZero",
+DEVIATIONS = ["EmptyBraceNoFocus", "BraceNoReset", "UnionCover", "StrPatchOOB", "AutoBackZero",
               "ReplaceEndOnly"]
 ACTIONS = ["Read", "Designate", "Advance", "Focus", "OpenBrace", "EmptyBrace", "StartExpr", "ExprFocus", "AddString",
            "AddScalar", "CloseBrace", "initadd:skip", "initadd:insert-before", "initadd:append", "initadd:replace",
@@ -246,9 +246,7 @@ def run_static(ctx, tab, cases, objdir):
         # the real binary disagrees with the declarative image: explained by a named deviation of the model?
         explained = None
         if fired:
-            if case["mst"] == "undef":
-                explained = "undef"          # the C code read an indeterminate value: any outcome
-            elif case["mst"] == "abort" and rc == -6:
+            if case["mst"] == "abort" and rc == -6:
                 explained = "abort"
             elif case["mst"] == "err" and rc == 1:
                 explained = "reject"
@@ -256,10 +254,7 @@ def run_static(ctx, tab, cases, objdir):
                     compare(case, obs[1][0], obs[1][1], obs[1][2], obs[1][3], tab, want_img=case["mimg"], want_rel=case["mrel"]) is None:
                 explained = "image"
         if explained:
-            # an indeterminate read inside the compiler comes from AnonNoMem alone; the other deviations that fired
-            # on the way are not what made the outcome unpredictable
-            blame = [d for d in fired if d == "AnonNoMem"] if explained == "undef" else fired
-            for dv in blame or fired:
+            for dv in fired:
                 ctx.violation("dev:%s:%s" % (dv, explained), "%s: %s" % (render_decl(tab, case, "x"), why), info)
         else:
             kind = why.split(":")[0].split(" ")[0]
